@@ -114,6 +114,12 @@ def run(ctx, report: Report) -> None:
     from .e2ematch import api_consistency_table
     api_consistency_table(ctx, r5, deep=(ctx.tier == 'thorough'))
 
+    # ---- R6 (the whole pipeline by interpretation, bounded) --------------------------------------------------------------
+    r6 = report.rule('C03-R6', 'results do not depend on the element a call starts from, inside and outside foreign-namespace subtrees (bounded)', floor=10)
+    from .e2ematch import scope_independence_table
+    scope_independence_table(ctx, r6)
+
+
 
 
 
